@@ -80,6 +80,7 @@ func init() {
 		"math.Ldexp":                      ext۰math۰Ldexp,
 		"math.Log":                        ext۰math۰Log,
 		"math.Min":                        ext۰math۰Min,
+		"math.Max":                        ext۰math۰Max,
 		"math.NaN":                        ext۰math۰NaN,
 		"math.Sqrt":                       ext۰math۰Sqrt,
 		"os.Exit":                         ext۰os۰Exit,
@@ -164,7 +165,31 @@ func ext۰math۰Float32bits(fr *frame, args []value) value {
 }
 
 func ext۰math۰Min(fr *frame, args []value) value {
+	if isSymF(args[0]) || isSymF(args[1]) {
+		return fpMinMax(args[0], args[1], false)
+	}
 	return math.Min(args[0].(float64), args[1].(float64))
+}
+
+func ext۰math۰Max(fr *frame, args []value) value {
+	if isSymF(args[0]) || isSymF(args[1]) {
+		return fpMinMax(args[0], args[1], true)
+	}
+	return math.Max(args[0].(float64), args[1].(float64))
+}
+
+// fpMinMax follows Go's math.Max/Min: NaN if either is NaN, signed zeros ordered, else the larger/smaller.
+func fpMinMax(x, y value, max bool) value {
+	a, b := E.fpTerm(x, 64), E.fpTerm(y, 64)
+	cmp, zeroPick := "fp.lt", "fp.isNegative"
+	if max {
+		cmp, zeroPick = "fp.gt", "fp.isPositive"
+	}
+	nan := "(_ NaN 11 53)"
+	t := "(ite (or (fp.isNaN " + a + ") (fp.isNaN " + b + ")) " + nan +
+		" (ite (and (fp.isZero " + a + ") (fp.isZero " + b + ")) (ite (" + zeroPick + " " + a + ") " + a + " " + b + ")" +
+		" (ite (" + cmp + " " + a + " " + b + ") " + a + " " + b + ")))"
+	return E.mkf(64, t)
 }
 
 func ext۰math۰NaN(fr *frame, args []value) value {
